@@ -85,7 +85,7 @@ fn gen_dim(src: &mut Src, o: &ModGenOpts, multi: bool, group_dim: usize) -> usiz
     if multi {
         match src.weighted(&[3, 2, 1]) {
             0 => (group_dim + src.range(1, 8) as usize).min(o.max_dim),
-            1 => src.range(group_dim as u64 + 1, (2 * group_dim + 3).min(o.max_dim) as u64) as usize,
+            1 => src.range(group_dim as u64 + 1, (2 * group_dim + 3).min(o.max_dim).max(group_dim + 1) as u64) as usize,
             _ => src.range(group_dim as u64 + 1, o.max_dim as u64) as usize,
         }
     } else {
@@ -180,7 +180,7 @@ pub fn gen_modular_case(src: &mut Src, o: &ModGenOpts) -> ModularCase {
     let mut classes = vec![];
     let group_size_shift = if src.chance(150) { 0 } else { src.range(0, 3) as u32 };
     let group_dim = 128usize << group_size_shift;
-    let multi = src.chance(o.multi_group);
+    let multi = src.chance(o.multi_group) && group_dim + 8 < o.max_dim;
     let (w, h) = if multi {
         match src.below(3) {
             0 => (gen_dim(src, o, true, group_dim), gen_dim(src, o, false, group_dim)),
@@ -365,6 +365,37 @@ pub fn fixed_modular_case(k: u8) -> ModularCase {
     let zeros: [u8; 0] = [];
     let mut src = Src::new(&zeros);
     match k {
+        // 2: multi-section frame with a permuted TOC (for feeding regressions, see C09/C11)
+        2 => {
+            let ih = ImageHeaderSpec {
+                width: 5,
+                height: 4,
+                xyb_encoded: false,
+                colour_encoding: ColourEncodingSpec::Enum { colour_space: 1, white_point: WhitePointSpec::D65, primaries: PrimariesSpec::Srgb, tf: TfSpec::Srgb, intent: 1 },
+                modular_16bit_buffers: false,
+                ..Default::default()
+            };
+            let mut fh = FrameHeaderSpec::simple_modular(&ih);
+            fh.group_size_shift = 0;
+            fh.passes = PassesSpec { num_passes: 3, shift: vec![0, 0], downsample: vec![], last_pass: vec![] };
+            let mut c = Chan::new(5, 4);
+            for i in 0..20 {
+                c.data[i] = ((i * 37) % 251) as i32;
+            }
+            let expected = vec![c.clone()];
+            let mut coded = vec![c];
+            let g = encode_fixed_global(&mut coded, &[], &Default::default(), &Tree::single(5));
+            let mut wr = BitWriter::new();
+            write_lf_global_preamble_plain(&mut wr);
+            wr.append(&g);
+            // LfGlobal, LfGroup 0, HfGlobal, 3 pass groups (all but the first empty)
+            let sections = vec![wr.finish(), vec![], vec![], vec![], vec![], vec![]];
+            let mut bytes = write_codestream_start(&ih, None, &mut src);
+            let header_len = bytes.len();
+            // reversed order, prefix-coded: zero bits decode to the most frequent (large) Lehmer digit
+            let layout = write_frame_with_perm(&mut bytes, &fh, &ih, &sections, Some(vec![5, 4, 3, 2, 1, 0]), &crate::entropy::CodeOpts { use_prefix: Some(true), single_cluster: true, ..Default::default() }, &mut src);
+            ModularCase { ih, fh, bytes, expected, n_colour: 1, classes: vec!["fixed:permuted-toc".into(), "toc:permuted".into()], layout, header_len, nontrivial: true, debug: String::new() }
+        }
         // 1: root decision chain on a previous-channel property with uniform leaves (fixed defect, see known_findings.json)
         1 => {
             use crate::modular::tree::{Leaf, Node};
